@@ -1190,6 +1190,9 @@ class Grid(object):
         if spacing.le(0).any():
             raise ValueError("Grid.resample() 'spacing' must be all positive numbers")
         size = self.extent().div(spacing)
+        # Do not add a grid point when extent is divisible by spacing up to floating point error
+        nearest = size.round()
+        size = torch.where(size.sub(nearest).abs().le(nearest.abs().mul(1e-5)), nearest, size)
         size = torch.where(self._size.gt(0), size.clamp(min=min_size), size)
         grid = shallow_copy(self)
         grid._size = size
